@@ -62,6 +62,8 @@ ks_int!(u64, 64);
 ks_int!(u128, 128);
 ks_var!(u8, 8, K2);
 ks_var!(u8, 8, K3);
+// full-width VarIntKmer built from the crate's own public marker K4 (not an alias of kmer.rs): same words as IntKmer<u8>
+ks_var!(u8, 8, K4);
 ks_var!(u16, 16, K5);
 ks_var!(u16, 16, K6);
 ks_var!(u32, 32, K10);
@@ -98,6 +100,7 @@ macro_rules! for_all_kmers {
         $f::<debruijn::kmer::Kmer40>($($a),*);
         $f::<debruijn::kmer::Kmer48>($($a),*);
         $f::<debruijn::kmer::Kmer64>($($a),*);
+        $f::<debruijn::kmer::VarIntKmer<u8, debruijn::kmer::K4>>($($a),*);
     }};
 }
 
